@@ -195,6 +195,19 @@ func c09Overlap(c *core.Ctx, only *voLine) {
 		seq := 0
 		for _, j := range jobs {
 			for _, b := range j.behs {
+				// schedules with a delete run on the xattr store only: on the sidecar store the
+				// marker and version-id attributes set by path live in attribute FILES that a
+				// concurrent upload clears and rewrites - VersionOverlap does not model those
+				// files (the attribute-file findings of that store are open under C05 / C11)
+				if sidecar && only == nil {
+					hasDel := false
+					for _, p := range b.Sched {
+						hasDel = hasDel || voIsDel(p)
+					}
+					if hasDel {
+						continue
+					}
+				}
 				seq++
 				key := fmt.Sprintf("k%04d", seq)
 				line := voLine{Puts: map[string]voPut{}, Dels: map[string]voDel{}, Pre: j.pre, Sched: b.Sched, Sidecar: sidecar, ModelVers: b.Vers, ModelMark: b.Markers, ModelCur: b.Cur, Vers: []string{}, Markers: []string{}}
